@@ -11,6 +11,42 @@ from c05 import ridge_distance_cart, SEC_YEAR
 TAU_MIN = 1e-3      # known finding D15: the 100-term plate series is only trusted for kappa*age/max_depth^2 >= TAU_MIN
 
 
+def young_slab_plate(wj, m, dist):
+    """known finding D38: is the oldest effective plate age this point can have (ridge distance of any trench point plus the
+    distance along the slab, over the slowest spreading velocity) still young for the truncated series of the plate reference,
+    kappa*age/max_distance^2 < TAU_MIN?"""
+    f = wj["features"][-1]
+    kappa = m.get("thermal diffusivity", -1)
+    kappa = wj.get("thermal diffusivity", 0.804e-6) if kappa < 0 else kappa
+    md = float(m.get("max distance slab top", 0.0))
+    if md <= 0:
+        return False
+    along = dist[1] if dist is not None and len(dist) > 1 and math.isfinite(dist[1]) else None
+    total = sum(float(sg["length"]) for sg in f["segments"])
+    if along is None or along > total:
+        along = total
+    cs_ = f["coordinates"]
+    pts = []
+    for a, b in zip(cs_, cs_[1:]):
+        pts += [(a[0] + (b[0] - a[0]) * t / 20.0, a[1] + (b[1] - a[1]) * t / 20.0) for t in range(21)]
+    rd = max(ridge_distance_cart(m["ridge coordinates"], p) for p in pts) * 1.1
+    sv = m.get("spreading velocity", 0.05)
+    flat = []
+
+    def walk(x):
+        if isinstance(x, (int, float)):
+            flat.append(float(x))
+        else:
+            for y in x:
+                walk(y)
+    walk(sv)
+    vel = [x for x in flat if x > 0]
+    if not vel:
+        return False
+    age = (rd + max(along, 0.0)) / (min(vel) / SEC_YEAR)
+    return kappa * age / (md * md) < TAU_MIN
+
+
 def run(chk):
     chk.rule = ("single oceanic plates with physically ordered end members (top <= bottom temperature), random ridge geometries "
                 "(1-3 ridges with transform faults), spreading velocities 0.5-15 cm/yr, plate ages 1e3-2e8 yr, max depths 60-250 km: "
@@ -119,6 +155,16 @@ def run(chk):
     from worlds import line_world
     from qgen import line_query
     slab_plan = []
+    slab_dist = {}       # index of the temperature query -> index of the distance_to_plane query at the same point
+
+    def slab_point(slot_, q_, d_, wj_, m_):
+        i_ = cs.p3(slot_, q_, d_, [[1, 0, 0], [4, 0, 0]])
+        slab_plan.append((i_, wj_, m_, d_))
+        if m_ is not None and m_.get("model") == "mass conserving" and m_.get("reference model name") == "plate model":
+            slab_dist[i_] = cs.raw("dist %d %s %s %s %s line" % (slot_, common.fhex(q_[0]), common.fhex(q_[1]), common.fhex(q_[2]), common.fhex(d_)),
+                                   "let () = out_str \"skip\"", {"kind": "dist", "slot": slot_, "world": wj_, "pos": list(q_), "depth": d_})
+        return i_
+
     for wi in range(25 if quick else 300):
         rng.seed("%d/c20-3/%d" % (chk.seed, wi))      # every world has its own stream: families do not disturb each other
         wj, sph, f = line_world(rng, kind="subducting plate", spherical=False, straight=rng.random() < 0.7, uniform_sections=True,
@@ -179,10 +225,10 @@ def run(chk):
         for qi in range(30):
             q, d = line_query(rng, wj, False, f, spread=rng.choice([0.2, 0.5]))
             if d >= 0:
-                slab_plan.append((cs.p3(slot, q, d, [[1, 0, 0], [4, 0, 0]]), wj, m, d))
+                slab_point(slot, q, d, wj, m)
                 if slot2 is not None:
-                    slab_plan.append((cs.p3(slot2, q, d, [[1, 0, 0], [4, 0, 0]]), wj2, m2, d))
-                    slab_plan.append((cs.p3(slot, q, d, [[1, 0, 0], [4, 0, 0]]), wj, m, d))
+                    slab_point(slot2, q, d, wj2, m2)
+                    slab_point(slot, q, d, wj, m)
         # a vertical profile through the top of the slab in 1.5 km steps (the cold core sits just above / below it)
         a, b = f["coordinates"][0], f["coordinates"][-1]
         dx, dy = b[0] - a[0], b[1] - a[1]
@@ -199,7 +245,7 @@ def run(chk):
             for k in range(-40, 28):
                 d = float(round(top + 1500.0 * k))
                 if d >= 0:
-                    slab_plan.append((cs.p3(slot, (px, py, 1000e3 - d), d, [[1, 0, 0], [4, 0, 0]]), wj, m, d))
+                    slab_point(slot, (px, py, 1000e3 - d), d, wj, m)
     impl, model = cs.run()
     chk.evaluations = len(impl)
     bad = chk.correspond(impl, model, cs, max_ulp=0)
@@ -218,6 +264,9 @@ def run(chk):
         # (it is what the model uses with adiabatic heating switched off, and it exceeds the adiabat when gravity is negative)
         hot = max(Tp, Tp * math.exp(al * gr * d / cp), Tp * math.exp(al2 * gr * d / cp2))
         if not (Ts - 1e-6 * Ts <= v[0] <= hot + 1e-6 * hot):
+            if v[0] > hot and i in slab_dist and young_slab_plate(wj, m, common.parse_vec(impl[slab_dist[i]])) and \
+                    chk.known("D38", "mass conserving slab, plate reference, young plate"):
+                continue
             dsc = cs.describe(i)
             dsc["temperature"], dsc["surface_temperature"], dsc["adiabat"] = v[0], Ts, hot
             viol.append(("slab %s temperature %.6g K lies outside [surface temperature %.6g K, background adiabat %.6g K]" % (m["model"], v[0], Ts, hot), dsc))
